@@ -576,5 +576,8 @@ def run(cx):
     cx.borrow(c02.r3_iff, "C02.R3", "C03.R11", "a component unaffected by a failure still finds its requirements met: the missing test is a presence test (C02.R3)")
     cx.guard(r9_content_before_skip, mods)
     cx.guard(r10_alarm_pairing, mods)
+    # a failure recorded for one component (or for the specs it implements) must not keep any other component - or the same one, on a second
+    # evaluation with the same broker - from being attempted: the execution guard knows the four engine conditions only (C02.R5 re-checked)
+    cx.borrow(c02.r5b_nothing_else_suppresses, "C02.R5b", "C03.R12", "recorded failures never feed back into the execution guard (C02.R5 re-checked)")
     if cx.tier == "thorough":
         cx.guard(g1_bare_vs_self, mods)
